@@ -22,7 +22,9 @@ Import ListNotations.
 (* Inputs                                                              *)
 (* ------------------------------------------------------------------ *)
 
-Inductive mode := Plain | ConnectBlind | ConnectMitm.
+(* ConnectDown = a CONNECT tunnelled blindly through a configured downstream
+   proxy (SetDownstreamProxy), to which the CONNECT request is forwarded *)
+Inductive mode := Plain | ConnectBlind | ConnectDown | ConnectMitm.
 (* what the round tripper / dialer does: answers with res.Request set to the
    request it was given, to a copy of it, to nil; or fails *)
 Inductive rtb := RtOk | RtClone | RtNil | RtFail.
@@ -44,7 +46,8 @@ Definition is_qskip (q : req) : bool := q_skip q.
 Definition is_shijack (q : req) : bool := s_hij q.
 Definition is_serr (q : req) : bool := s_err q.
 Definition rt_fails (q : req) : bool := match r_rt q with RtFail => true | _ => false end.
-Definition is_blind (q : req) : bool := match r_mode q with ConnectBlind => true | _ => false end.
+Definition is_blind (q : req) : bool :=
+  match r_mode q with ConnectBlind | ConnectDown => true | _ => false end.
 Definition is_plain (q : req) : bool := match r_mode q with Plain => true | _ => false end.
 Definition b2n (b : bool) : nat := if b then 1 else 0.
 
@@ -56,14 +59,16 @@ Definition b2n (b : bool) : nat := if b then 1 else 0.
    identifiers; L = requests whose context is retrievable at that moment;
    warn = number of Warning header values, each of the form
    warn-code SP warn-agent SP quoted-string [SP quoted-string] without
-   control characters (a value not of that form is observed as 100). *)
+   control characters (a value not of that form is observed as 100);
+   qwarn = the same count on res.Request.Header, i.e. on the request the
+   request modifier ran on, as the response modifier finds it. *)
 Inductive event :=
 | Link (r c : nat)
 | Unlink (r : nat)
 | ReqMod (r c s : nat) (L : list nat)
 | Upstream (r : nat) (same : bool) (warn m : nat)
 | Dial (r : nat)
-| ResMod (r : nat) (same : bool) (c s status warn : nat) (L : list nat)
+| ResMod (r : nat) (same : bool) (c s status warn qwarn : nat) (L : list nat)
 | Write (r status warn : nat) (close : bool) (m : nat)
 | Tunnel (r : nat)
 | HijackRet (r : nat)
@@ -110,21 +115,23 @@ Fixpoint handle (v : variant) (s : nat) (st : state) (reqs : list req)
       let hret := if is_qhijack q then [HijackRet r] else [] in
       let st' h := mkSt (S r) (S c) (unlink r l1) h in         (* 459 deferred unlink *)
       let se := b2n (is_serr q) in
+      let wq := b2n (is_qerr q) in                            (* 301 / 496 Warning on the request *)
+      (* the CONNECT request as the downstream proxy receives it *)
+      let fwd := match r_mode q with ConnectDown => [Upstream r true wq 1] | _ => [] end in
       if hij then (head ++ hret ++ [Unlink r], st' true, rest, RNil)
       else
       match r_mode q with
       | Plain =>
-          let wq := b2n (is_qerr q) in                        (* 496 Warning on the request *)
           let up := if is_qskip q then [] else [Upstream r true wq 1] in   (* 503 / 600 *)
           let '(status, w0) :=
             if is_qskip q then (200, 0)
             else if rt_fails q then (502, 1) else (203, 0) in  (* 506-507; 513 res.Request = req *)
-          let rm := ResMod r true c s status w0 L in          (* 513-515 *)
+          let rm := ResMod r true c s status w0 wq L in          (* 513-515 *)
           if is_shijack q
           then (head ++ up ++ [rm; HijackRet r; Unlink r], st' true, rest, RNil)   (* 519-522 *)
           else (head ++ up ++ [rm; Write r status (w0 + se) (r_close q) 1; Unlink r],
                 st' false, rest, if r_close q then RClose else RNil)      (* 525-584 *)
-      | ConnectBlind =>
+      | ConnectBlind | ConnectDown =>
           (* p.connect: [Dial r] is the one dial it performs in either branch: the
              target itself, or the configured downstream proxy, to which it then
              writes the CONNECT request and whose answer it reads with
@@ -133,19 +140,19 @@ Fixpoint handle (v : variant) (s : nat) (st : state) (reqs : list req)
              res.Request, so "same request" rests on connect() in both branches. *)
           if rt_fails q
           then                                                 (* 374-396 *)
-              let rm := ResMod r true c s 502 1 L in
+              let rm := ResMod r true c s 502 1 wq L in
               if is_shijack q
               then (head ++ [Dial r; rm; HijackRet r; Unlink r], st' true, rest, RNil)
               else (head ++ [Dial r; rm; Write r 502 (1 + se) (r_close q) 1; Unlink r],
                     st' false, rest, RNil)
           else                                                 (* 397-439 *)
-              let rm := ResMod r true c s 200 0 L in
+              let rm := ResMod r true c s 200 0 wq L in
               if is_shijack q
-              then (head ++ [Dial r; rm; HijackRet r; Unlink r], st' true, rest, RNil)
-              else (head ++ [Dial r; rm; Write r 200 se true 1; Tunnel r; Unlink r],
+              then (head ++ [Dial r] ++ fwd ++ [rm; HijackRet r; Unlink r], st' true, rest, RNil)
+              else (head ++ [Dial r] ++ fwd ++ [rm; Write r 200 se true 1; Tunnel r; Unlink r],
                     st' false, rest, RClose)
       | ConnectMitm =>                                         (* 308-370 *)
-          let rm := ResMod r true c s 200 0 L in
+          let rm := ResMod r true c s 200 0 wq L in
           if is_shijack q
           then (head ++ [rm; HijackRet r; Unlink r], st' true, rest, RNil)
           else
@@ -235,32 +242,34 @@ Inductive outcome := Continue | Stop.
 Definition block (r c s : nat) (q : req) : list event * outcome :=
   let L := [r] in
   let se := b2n (is_serr q) in
+  let wq := b2n (is_qerr q) in
+  let fwd := match r_mode q with ConnectDown => [Upstream r true wq 1] | _ => [] end in
   if is_qhijack q then ([ReqMod r c s L; HijackRet r], Stop)
   else
   match r_mode q with
   | Plain =>
-      let up := if is_qskip q then [] else [Upstream r true (b2n (is_qerr q)) 1] in
+      let up := if is_qskip q then [] else [Upstream r true wq 1] in
       let '(status, w0) :=
         if is_qskip q then (200, 0)
         else if rt_fails q then (502, 1) else (203, 0) in
       if is_shijack q
-      then (ReqMod r c s L :: up ++ [ResMod r true c s status w0 L; HijackRet r], Stop)
-      else (ReqMod r c s L :: up ++ [ResMod r true c s status w0 L; Write r status (w0 + se) (r_close q) 1],
+      then (ReqMod r c s L :: up ++ [ResMod r true c s status w0 wq L; HijackRet r], Stop)
+      else (ReqMod r c s L :: up ++ [ResMod r true c s status w0 wq L; Write r status (w0 + se) (r_close q) 1],
             if r_close q then Stop else Continue)
-  | ConnectBlind =>
+  | ConnectBlind | ConnectDown =>
       if rt_fails q
       then
           if is_shijack q
-          then ([ReqMod r c s L; Dial r; ResMod r true c s 502 1 L; HijackRet r], Stop)
-          else ([ReqMod r c s L; Dial r; ResMod r true c s 502 1 L; Write r 502 (1 + se) (r_close q) 1], Continue)
+          then ([ReqMod r c s L; Dial r; ResMod r true c s 502 1 wq L; HijackRet r], Stop)
+          else ([ReqMod r c s L; Dial r; ResMod r true c s 502 1 wq L; Write r 502 (1 + se) (r_close q) 1], Continue)
       else
           if is_shijack q
-          then ([ReqMod r c s L; Dial r; ResMod r true c s 200 0 L; HijackRet r], Stop)
-          else ([ReqMod r c s L; Dial r; ResMod r true c s 200 0 L; Write r 200 se true 1; Tunnel r], Stop)
+          then (ReqMod r c s L :: Dial r :: fwd ++ [ResMod r true c s 200 0 wq L; HijackRet r], Stop)
+          else (ReqMod r c s L :: Dial r :: fwd ++ [ResMod r true c s 200 0 wq L; Write r 200 se true 1; Tunnel r], Stop)
   | ConnectMitm =>
       if is_shijack q
-      then ([ReqMod r c s L; ResMod r true c s 200 0 L; HijackRet r], Stop)
-      else ([ReqMod r c s L; ResMod r true c s 200 0 L; Write r 200 se (r_close q) 1], Continue)
+      then ([ReqMod r c s L; ResMod r true c s 200 0 wq L; HijackRet r], Stop)
+      else ([ReqMod r c s L; ResMod r true c s 200 0 wq L; Write r 200 se (r_close q) 1], Continue)
   end.
 
 (* Returns the observable trace and the number of exchanges that took place. *)
@@ -305,8 +314,9 @@ Definition event_eqb (a b : event) : bool :=
   | ReqMod r c s L, ReqMod r' c' s' L' => Nat.eqb r r' && Nat.eqb c c' && Nat.eqb s s' && nl_eqb L L'
   | Upstream r sm w m, Upstream r' sm' w' m' => Nat.eqb r r' && Bool.eqb sm sm' && Nat.eqb w w' && Nat.eqb m m'
   | Dial r, Dial r' => Nat.eqb r r'
-  | ResMod r sm c s st w L, ResMod r' sm' c' s' st' w' L' =>
-      Nat.eqb r r' && Bool.eqb sm sm' && Nat.eqb c c' && Nat.eqb s s' && Nat.eqb st st' && Nat.eqb w w' && nl_eqb L L'
+  | ResMod r sm c s st w qw L, ResMod r' sm' c' s' st' w' qw' L' =>
+      Nat.eqb r r' && Bool.eqb sm sm' && Nat.eqb c c' && Nat.eqb s s' && Nat.eqb st st' && Nat.eqb w w'
+      && Nat.eqb qw qw' && nl_eqb L L'
   | Write r st w cl m, Write r' st' w' cl' m' =>
       Nat.eqb r r' && Nat.eqb st st' && Nat.eqb w w' && Bool.eqb cl cl' && Nat.eqb m m'
   | Tunnel r, Tunnel r' => Nat.eqb r r'
@@ -327,7 +337,7 @@ Definition traces_eqb := list_eqb trace_eqb.
 Definition ev_req (e : event) : option nat :=
   match e with
   | Link r _ | Unlink r | ReqMod r _ _ _ | Upstream r _ _ _ | Dial r
-  | ResMod r _ _ _ _ _ _ | Write r _ _ _ _ | Tunnel r | HijackRet r => Some r
+  | ResMod r _ _ _ _ _ _ _ | Write r _ _ _ _ | Tunnel r | HijackRet r => Some r
   | SockRead | SockWrite | SockClose => None
   end.
 
@@ -338,7 +348,7 @@ Definition about (r : nat) (e : event) : bool :=
 Definition ex (r : nat) (T : list event) : list event := filter (about r) T.
 
 Definition is_reqmod (e : event) : bool := match e with ReqMod _ _ _ _ => true | _ => false end.
-Definition is_resmod (e : event) : bool := match e with ResMod _ _ _ _ _ _ _ => true | _ => false end.
+Definition is_resmod (e : event) : bool := match e with ResMod _ _ _ _ _ _ _ _ => true | _ => false end.
 Definition is_contact (e : event) : bool := match e with Upstream _ _ _ _ | Dial _ => true | _ => false end.
 Definition is_write (e : event) : bool := match e with Write _ _ _ _ _ => true | _ => false end.
 Definition count (p : event -> bool) (T : list event) : nat := length (filter p T).
@@ -365,7 +375,7 @@ Fixpoint no_contact_after_resmod (seen : bool) (E : list event) : bool :=
   end.
 
 Definition resmod_wf (c s : nat) (e : event) : bool :=
-  match e with ResMod _ sm c' s' _ _ _ => sm && Nat.eqb c' c && Nat.eqb s' s | _ => true end.
+  match e with ResMod _ sm c' s' _ _ _ _ => sm && Nat.eqb c' c && Nat.eqb s' s | _ => true end.
 
 Definition cl_resmod_ex (q : req) (E : list event) : bool :=
   match E with
@@ -380,16 +390,18 @@ Definition cl_resmod_ex (q : req) (E : list event) : bool :=
 Definition linked_wf (e : event) : bool :=
   match e with
   | ReqMod r _ _ L => nl_eqb L [r]
-  | ResMod r _ _ _ _ _ L => nl_eqb L [r]
+  | ResMod r _ _ _ _ _ _ L => nl_eqb L [r]
   | _ => true
   end.
 
 (* C6: a modifier error is a Warning and nothing else changes: unless a
    modifier hijacks, the exchange is answered once, with the status the
    response modifier saw and its warnings plus one iff it failed; the
-   forwarded request carries one warning iff the request modifier failed. *)
+   forwarded request (also a CONNECT forwarded to a downstream proxy) and
+   the request as the response modifier finds it in res.Request carry one
+   warning iff the request modifier failed. *)
 Definition find_resmod (E : list event) : option (nat * nat) :=
-  match filter is_resmod E with ResMod _ _ _ _ st w _ :: _ => Some (st, w) | _ => None end.
+  match filter is_resmod E with ResMod _ _ _ _ st w _ _ :: _ => Some (st, w) | _ => None end.
 
 Definition write_wf (q : req) (stw : option (nat * nat)) (e : event) : bool :=
   match e with
@@ -399,6 +411,7 @@ Definition write_wf (q : req) (stw : option (nat * nat)) (e : event) : bool :=
       | None => false
       end
   | Upstream _ _ w _ => Nat.eqb w (b2n (is_qerr q))
+  | ResMod _ _ _ _ _ _ qw _ => Nat.eqb qw (b2n (is_qerr q))
   | _ => true
   end.
 
@@ -433,13 +446,14 @@ Definition want_contacts (q : req) : nat :=
   match r_mode q with
   | Plain => if is_qskip q then 0 else 1
   | ConnectBlind => 1
+  | ConnectDown => if rt_fails q then 1 else 2      (* the dial, then the CONNECT forwarded *)
   | ConnectMitm => 0
   end.
 
 Definition want_status (q : req) : nat * nat :=
   match r_mode q with
   | Plain => if is_qskip q then (200, 0) else if rt_fails q then (502, 1) else (203, 0)
-  | ConnectBlind => if rt_fails q then (502, 1) else (200, 0)
+  | ConnectBlind | ConnectDown => if rt_fails q then (502, 1) else (200, 0)
   | ConnectMitm => (200, 0)
   end.
 
@@ -468,7 +482,7 @@ Fixpoint cl_hijack (T : list event) : bool :=
 Definition sess_wf (k : nat) (e : event) : bool :=
   match e with
   | ReqMod _ _ s _ => Nat.eqb s k
-  | ResMod _ _ _ s _ _ _ => Nat.eqb s k
+  | ResMod _ _ _ s _ _ _ _ => Nat.eqb s k
   | _ => true
   end.
 
